@@ -652,6 +652,8 @@ type zvC16Ctx struct {
 	maxBatch uint64
 	maxOne   uint64
 	lastGC   uint64
+	last     uint64
+	haveLast bool
 	wall     map[string]time.Duration // informational only (where the time goes), never an oracle
 }
 
@@ -685,7 +687,8 @@ func zvC16HdrValid(in []byte) bool {
 		}
 	}
 	l := int(in[16])<<8 | int(in[17])
-	return l >= 19 && l <= 4096 && in[18] >= 1 && in[18] <= 4
+	min := map[byte]int{1: 29, 2: 23, 3: 21, 4: 19}[in[18]] // RFC 4271 6.1; 0 for unknown types
+	return min > 0 && l >= min && l <= 4096
 }
 
 func zvC16MsgType(in []byte) string {
@@ -782,8 +785,13 @@ func (x *zvC16Ctx) input(seed, kind, detail string, in []byte) {
 	}
 	t0 := time.Now()
 	defer func() { x.wall[kind] += time.Since(t0) }()
-	runtime.ReadMemStats(&x.ms)
-	a0 := x.ms.TotalAlloc
+	// The window opens at the previous input's closing measurement: what the harness
+	// allocates in between (the mutated copy, the description) only adds to the delta.
+	if !x.haveLast {
+		runtime.ReadMemStats(&x.ms)
+		x.last = x.ms.TotalAlloc
+	}
+	a0 := x.last
 	nOK := 0
 	for oi := range x.opts {
 		if x.one(seed, kind, detail, oi, in, false) {
@@ -793,12 +801,14 @@ func (x *zvC16Ctx) input(seed, kind, detail string, in []byte) {
 	runtime.ReadMemStats(&x.ms)
 	d := x.ms.TotalAlloc - a0
 	x.gcMaybe()
+	x.last, x.haveLast = x.ms.TotalAlloc, true
 	if d > x.maxBatch {
 		x.maxBatch = d
 	}
 	// The 16 decodes together stayed below the bound for one => each did.
 	if d > zvC16Bound(len(in)) {
 		x.cnt["alloc_remeasured_inputs"]++
+		x.haveLast = false
 		for oi := range x.opts {
 			m := x.measure(in, &x.opts[oi])
 			if m > x.maxOne {
